@@ -24,6 +24,22 @@ describe(
 D = "curies.discovery"
 
 
+def keyed_add(ev):
+    """(accumulator, key, value, kind) for `acc[k].add(v)` / `acc.setdefault(k, set()).add(v)`; else None."""
+    if not (ev.kind == "expr" and op(ev.a) == "call" and op(ev.a[1]) == "attr" and ev.a[2]):
+        return None
+    m, recv = ev.a[1][2], ev.a[1][1]
+    if op(recv) == "item" and op(recv[1]) == "new":
+        acc = recv[1]
+        kind = "set" if (acc[1] == "defaultdict" and acc[4] == ("builtin", "set")) else ("list" if acc[1] == "defaultdict" and acc[4] == ("builtin", "list") else acc[1])
+        return acc, recv[2], ev.a[2][0], kind, m
+    if op(recv) == "call" and callee_name(recv) == "setdefault" and op(recv[1]) == "attr" and op(recv[1][1]) == "new" and len(recv[2]) == 2:
+        d = recv[2][1]
+        kind = "set" if (d == ("call", ("builtin", "set"), (), ()) or (op(d) == "display0" and d[1] == "set") or (op(d) == "new" and d[1] == "set")) else "list" if (op(d) in ("list", "display0", "new")) else "?"
+        return recv[1][1], recv[2][0], ev.a[2][0], kind, m
+    return None
+
+
 def helper(cx: Cx, ob: Ob):
     fn = cx.fn(f"{D}._get_uri_prefix_to_luids", ob.id)
     return fn, cx.summary(fn, ob.id)
@@ -55,17 +71,19 @@ def d1(cx: Cx, ob: Ob) -> None:
                     if ev.kind == "store":
                         base = ev.a[1] if op(ev.a) in ("item", "attr") else None
                         ob.violate(fn.qualname, where(fn, ev.line), f"the input loop stores `{show(ev.a)[:50]}`: a keyed overwrite makes the result depend on the order of the URIs", detail="store-in-loop")
-                    if ev.kind == "expr" and op(ev.a) == "call" and op(ev.a[1]) == "attr":
-                        m = ev.a[1][2]
-                        recv = ev.a[1][1]
-                        root = recv[1] if op(recv) == "item" else recv
-                        if op(root) == "new":
-                            accs.add(root)
-                            ob.site(f"{where(fn, ev.line)} {fn.qualname}", f"accumulator update .{m} on {show(root)[:30]}")
-                            if root[1] != "defaultdict" or root[4] != ("builtin", "set"):
-                                ob.violate(fn.qualname, where(fn, ev.line), f"the accumulator is a {root[1]}({show(root[4])[:20]}), not defaultdict(set): repeated URIs are counted repeatedly / order matters", witness="discover([u, u]) counts u twice towards the cutoff", detail="accumulator-kind")
-                            elif not (m == "add" and op(recv) == "item"):
-                                ob.violate(fn.qualname, where(fn, ev.line), f"the accumulator is updated with .{m}, not keyed set.add", detail="accumulator-update")
+                    ka = keyed_add(ev)
+                    if ka is not None:
+                        root, _, _, kind, m = ka
+                        accs.add(root)
+                        ob.site(f"{where(fn, ev.line)} {fn.qualname}", f"accumulator update .{m} on {show(root)[:30]} ({kind} per key)")
+                        if kind != "set":
+                            ob.violate(fn.qualname, where(fn, ev.line), f"the accumulator keeps a {kind} per URI prefix, not a set: repeated URIs are counted repeatedly / order matters", witness="discover([u, u]) counts u twice towards the cutoff", detail="accumulator-kind")
+                        elif m != "add":
+                            ob.violate(fn.qualname, where(fn, ev.line), f"the accumulator is updated with .{m}, not keyed set.add", detail="accumulator-update")
+                    elif ev.kind == "expr" and op(ev.a) == "call" and op(ev.a[1]) == "attr" and op(ev.a[1][1]) == "new" and ev.a[1][2] in ("append", "add", "update", "extend"):
+                        root = ev.a[1][1]
+                        accs.add(root)
+                        ob.violate(fn.qualname, where(fn, ev.line), f"the input loop accumulates into a flat {root[1]} with .{ev.a[1][2]}", detail="accumulator-kind")
                     for t in (ev.a, ev.b):
                         if isinstance(t, tuple):
                             for x in subterms(t):
@@ -79,7 +97,7 @@ def d1(cx: Cx, ob: Ob) -> None:
             ob.undecide("no accumulator update found in the input loop")
     for t, ctx in s.returns():
         inner = t[2][0] if op(t) == "call" and op(t[1]) == "builtin" and t[1][1] == "dict" and t[2] else t
-        if op(inner) != "new":
+        if op(inner) != "new" and not ctx.loops:
             ob.undecide(f"helper returns `{show(t)[:40]}`")
 
 
@@ -230,7 +248,8 @@ def d4(cx: Cx, ob: Ob) -> None:
     fn, s = helper(cx, ob)
     found = False
     for ev, ctx in s.walk():
-        if not (ev.kind == "expr" and op(ev.a) == "call" and callee_name(ev.a) == "add" and op(ev.a[1][1]) == "item"):
+        ka = keyed_add(ev)
+        if ka is None or ka[4] != "add":
             continue
         if len(ctx.loops) != 2:
             ob.undecide("the store is not inside the URI loop and the delimiter loop")
@@ -238,7 +257,7 @@ def d4(cx: Cx, ob: Ob) -> None:
         found = True
         uri_lp, d_lp = ctx.loops
         uri, d = uri_lp.a, d_lp.a
-        key, val = ev.a[1][1][2], ev.a[2][0]
+        key, val = ka[1], ka[2]
         ob.site(f"{where(fn, ev.line)} {fn.qualname}", f"[{show(key)[:50]}].add({show(val)[:40]})")
         parts = concat_parts(key)
         R = parts[0][1] if parts and len(parts) == 2 and op(parts[0]) == "item" else None
@@ -276,7 +295,7 @@ def d5(cx: Cx, ob: Ob) -> None:
     conv = ("param", "converter")
     n = 0
     for ev, ctx in s.walk():
-        if not (ev.kind == "expr" and op(ev.a) == "call" and callee_name(ev.a) in ("add", "append") and op(ev.a[1][1]) == "item"):
+        if keyed_add(ev) is None:
             continue
         if not ctx.loops:
             continue
@@ -288,6 +307,9 @@ def d5(cx: Cx, ob: Ob) -> None:
             if g.kind != "guard":
                 continue
             atoms = g.a[1] if (op(g.a) == "and" and g.b is False) else (g.a,)
+            if op(g.a) == "or" and g.b is False:
+                # not (A or B): every disjunct is false; a disjunct `converter is not None and is_uri(uri)` counts
+                atoms = tuple(y for x in g.a[1] for y in (x[1] if op(x) == "and" else (x,)))
             for a in atoms:
                 if g.b is False and op(a) == "call" and op(a[1]) == "attr" and a[1][1] == conv and a[1][2] == "is_uri" and a[2] == (uri,):
                     ok = True
